@@ -24,6 +24,7 @@ type Program struct {
 	Contracts  map[string]*Contract    // key: pkgPath + "::" + name ; externals: "ext::" + name
 	ConFiles   []string
 	Findings   map[string]*Finding
+	Orphans    []*Contract // contracts whose function does not exist in the current tree
 	Invariants []*Clause
 	NonNilDyn  map[string]bool
 
@@ -80,6 +81,37 @@ func Load(repo string, extDir string) (*Program, error) {
 			continue
 		}
 		P.funcs[pkg.Pkg.Path()+"::"+fn.RelString(pkg.Pkg)] = fn
+	}
+	// methods nothing refers to any more are still functions of the code base (a contract on one of them
+	// must not look like a contract on a missing function)
+	for _, sp := range prog.AllPackages() {
+		if !strings.HasPrefix(sp.Pkg.Path(), "github.com/hedzr/logg") {
+			continue
+		}
+		for _, m := range sp.Members {
+			tn, ok := m.(*ssa.Type)
+			if !ok {
+				continue
+			}
+			if _, isIface := tn.Type().Underlying().(*types.Interface); isIface {
+				continue
+			}
+			for _, rt := range []types.Type{tn.Type(), types.NewPointer(tn.Type())} {
+				ms := prog.MethodSets.MethodSet(rt)
+				for i := 0; i < ms.Len(); i++ {
+					sel := ms.At(i)
+					if len(sel.Index()) != 1 {
+						continue // promoted
+					}
+					if fn := prog.MethodValue(sel); fn != nil && fn.Synthetic == "" {
+						k := sp.Pkg.Path() + "::" + fn.RelString(sp.Pkg)
+						if _, have := P.funcs[k]; !have {
+							P.funcs[k] = fn
+						}
+					}
+				}
+			}
+		}
 	}
 	// contract files: zz_verif_contracts*.go in the loaded logg packages
 	var files []string
@@ -265,7 +297,10 @@ func (P *Program) addContract(c *Contract) error {
 	if !c.External {
 		fn, ok := P.funcs[key]
 		if !ok {
-			return fmt.Errorf("%s:%d: contract for unknown function %q (package %s)", c.File, c.Line, c.Name, c.PkgPath)
+			// the function this contract was written for is gone (renamed, removed, restructured): the
+			// properties the contract names cannot be decided any more; every other property is unaffected
+			P.Orphans = append(P.Orphans, c)
+			return nil
 		}
 		if c.Auto {
 			if err := P.expandAuto(c, fn); err != nil {
